@@ -102,11 +102,18 @@ type VC struct {
 	noAssumeObs bool
 	noDefine    int
 	curLets     map[string]*Node
+	defs        map[string]string
+	storeLog    []storeRec
+	logStores   bool
+	allocLog    map[string]bool
+	axioms      map[string][]*axiomRec
+	instDone    map[string]int
+	naxiom      int
 }
 
 func newVC(w *World, root *ssa.Function) *VC {
 	return &VC{w: w, root: root, declared: map[string]bool{}, obSeen: map[string]int{},
-		inlined: map[string]bool{}, used: map[string]bool{}, trusted: map[string]bool{}, termSorts: map[string]string{}, lastLatch: map[string][]string{}}
+		inlined: map[string]bool{}, used: map[string]bool{}, trusted: map[string]bool{}, termSorts: map[string]string{}, lastLatch: map[string][]string{}, defs: map[string]string{}, allocLog: map[string]bool{}, axioms: map[string][]*axiomRec{}, instDone: map[string]int{}}
 }
 
 func (vc *VC) cmd(s string) { vc.items = append(vc.items, Item{Cmd: s}) }
@@ -123,6 +130,7 @@ func (vc *VC) define(prefix, srt, term string) string {
 	}
 	n := vc.name(prefix)
 	vc.cmd(fmt.Sprintf("(define-fun %s () %s %s)", n, srt, term))
+	vc.defs[n] = term
 	return n
 }
 
@@ -171,6 +179,12 @@ func (vc *VC) arr(st *State, l Leaf) string {
 		vc.decls = append(vc.decls, fmt.Sprintf("(declare-const %s (Array Int %s))", n, l.Sort))
 	}
 	return n
+}
+
+func (vc *VC) logStore(key, addr, count string) {
+	if vc.logStores {
+		vc.storeLog = append(vc.storeLog, storeRec{key, addr, count})
+	}
 }
 
 func (vc *VC) setArr(st *State, l Leaf, term string) {
@@ -377,10 +391,78 @@ func sortedKeys(m map[string]bool) []string {
 // staticFrame states that package-level variables (static area) are not
 // changed by a havoc: no function of the package stores to a global (checked
 // by the write-freedom scan, trusted base item 5).
-func (vc *VC) staticFrame(nw, old string) {
-	vc.assume(fmt.Sprintf("(forall ((a Int)) (! (=> (< a %d) (= (select %s a) (select %s a))) :pattern ((select %s a))))", staticEnd, nw, old, nw))
+func (vc *VC) staticFrame(key, nw, old string) {
+	vc.addAxiom(key, fmt.Sprintf("(forall ((a Int)) (! (=> (< a %d) (= (select %s a) (select %s a))) :pattern ((select %s a))))", staticEnd, nw, old, nw),
+		func(idx string) (string, []string) {
+			return imp(lt(idx, intLit(staticEnd)), eq(sel(nw, idx), sel(old, idx))), nil
+		})
 }
 
 func isQuantified(cmd string) bool {
 	return strings.Contains(cmd, "(forall ") || strings.Contains(cmd, "(exists ")
+}
+
+// ---- quantified heap axioms and their instantiation at read indices ----
+
+type axiomRec struct {
+	id   int
+	born int // index in vc.items
+	// inst returns the instance of the axiom at index idx and the indices at
+	// which the instance itself reads the same heap key
+	inst func(idx string) (string, []string)
+}
+
+// addAxiom emits a quantified fact about heap key `key` (used by the full
+// solver pass) and registers its instantiation function: every later read of
+// that key at a ground index gets the corresponding quantifier-free instance,
+// which is what the first (quantifier-free) pass works with.
+func (vc *VC) addAxiom(key, quantified string, inst func(idx string) (string, []string)) {
+	vc.assume(quantified)
+	vc.naxiom++
+	vc.axioms[key] = append(vc.axioms[key], &axiomRec{id: vc.naxiom, born: len(vc.items), inst: inst})
+}
+
+func (vc *VC) dropAxiomsFrom(itemIndex int) {
+	for k, as := range vc.axioms {
+		n := 0
+		for _, a := range as {
+			if a.born <= itemIndex {
+				as[n] = a
+				n++
+			}
+		}
+		vc.axioms[k] = as[:n]
+	}
+	for k, at := range vc.instDone {
+		if at >= itemIndex {
+			delete(vc.instDone, k)
+		}
+	}
+}
+
+// read returns (select arr idx) for a heap leaf and instantiates the
+// registered axioms of that key at idx.
+func (vc *VC) read(st *State, l Leaf, idx string) string {
+	t := sel(vc.arr(st, l), idx)
+	vc.instantiate(l.Key, idx, 0)
+	return t
+}
+
+func (vc *VC) instantiate(key, idx string, depth int) {
+	if depth > 3 || vc.noDefine > 0 || strings.Contains(idx, "q_") {
+		return
+	}
+	as := vc.axioms[key]
+	for _, a := range as {
+		k := fmt.Sprintf("%d|%s", a.id, idx)
+		if _, ok := vc.instDone[k]; ok {
+			continue
+		}
+		vc.instDone[k] = len(vc.items)
+		t, more := a.inst(idx)
+		vc.cmd("(assert " + t + ")")
+		for _, m := range more {
+			vc.instantiate(key, m, depth+1)
+		}
+	}
 }
